@@ -81,8 +81,36 @@ impl SetChecked for HCtx {
     }
 }
 
+/// Joins tokens without spaces except between two word-like tokens (which would fuse).
+fn render_compact(ts: &[T]) -> String {
+    let wordy = |t: &T| matches!(t, T::Lit(_) | T::Ident(_));
+    let mut s = String::new();
+    for (i, t) in ts.iter().enumerate() {
+        if i > 0 && wordy(&ts[i - 1]) && wordy(t) {
+            s.push(' ');
+        }
+        s.push_str(t.text());
+    }
+    s
+}
+
 fn check_seq(ts: &[T], ctxs: &[HCtx], st: &mut Stats) {
-    let src = render(ts);
+    check_rendered(ts, render(ts), ctxs, st);
+    // the same token sequence written without spaces, if the reference lexer still reads the same tokens
+    // (a sign directly in front of a number, operators glued together, ...)
+    if !ts.is_empty() && ts.len() <= 6 {
+        let compact = render_compact(ts);
+        let same = match (crate::refmodel::lexer::lex(&compact), crate::refmodel::lexer::lex(&render(ts))) {
+            (Ok(a), Ok(b)) => crate::refmodel::lexer::same_tokens(&a, &b),
+            _ => false,
+        };
+        if same && compact != render(ts) {
+            check_rendered(ts, compact, ctxs, st);
+        }
+    }
+}
+
+fn check_rendered(ts: &[T], src: String, ctxs: &[HCtx], st: &mut Stats) {
     let class = classify(ts);
     st.evaluations += 1;
     let mk = |kind: &str, expected: &str, actual: String| Violation {
